@@ -1706,6 +1706,28 @@ func injectorTemplateForms() []*Program {
 		p.Extra["0/zz_driver.go"] = drvHdr + "import \"" + p.ImportPath(1) + "\"\n\nfunc Scenarios() {\n\t_ = Init(struct{ libx.A }{})\n}\n"
 		progs = append(progs, p)
 	}
+	// the unexported type sits INSIDE a composite the alias names: element, key, parameter,
+	// result, field; every position must be looked at
+	for _, c := range []struct{ name, decl, zero string }{
+		{"map-key", "type Index = map[key]string", "libx.Index{}"},
+		{"map-elem", "type Index = map[string]key", "libx.Index{}"},
+		{"slice-elem", "type Index = []key", "libx.Index{}"},
+		{"array-elem", "type Index = [2]key", "libx.Index{}"},
+		{"chan-elem", "type Index = chan key", "nil"},
+		{"ptr-ptr", "type Index = **key", "nil"},
+		{"func-param", "type Index = func(key) int", "nil"},
+		{"func-result", "type Index = func() key", "nil"},
+		{"func-variadic", "type Index = func(...key)", "nil"},
+		{"struct-field", "type Index = struct{ K key }", "libx.Index{}"},
+		{"map-of-map-key", "type Index = map[string]map[key]int", "libx.Index{}"},
+		{"generic-arg", "type Box[T any] struct{ V T }\n\ntype Index = Box[key]", "libx.Index{}"},
+	} {
+		p := mk("alias-of-composite-with-unexported-"+c.name, "injector parameter typed by an exported alias of a composite type that mentions an unexported type ("+c.name+")", true)
+		aliasLib(p, "type key struct{ N int }\n\n"+c.decl, nil)
+		p.Extra["0/wire.go"] = hdr + "import (\n\t\"github.com/google/wire\"\n\t\"" + p.ImportPath(1) + "\"\n)\n\nfunc Init(idx libx.Index) *libx.Svc {\n\twire.Build(libx.NewSvc)\n\treturn nil\n}\n"
+		p.Extra["0/zz_driver.go"] = drvHdr + "import \"" + p.ImportPath(1) + "\"\n\nfunc Scenarios() {\n\t_ = Init(" + c.zero + ")\n}\n"
+		progs = append(progs, p)
+	}
 	{
 		// control: an alias of an exported, importable type
 		p := mk("alias-control", "injector parameter typed by an alias of an exported type (control)", false)
@@ -1875,6 +1897,126 @@ func localShadowsSetVarFamily() []*Program {
 			}
 			b.P.Extra = map[string]string{"0/" + file: "package app\n\nimport \"github.com/google/wire\"\n\nfunc fakes() interface{} {\n" + body + "}\n\nvar _ = fakes\n"}
 			cell := fmt.Sprintf("local-named-like-set-variable/form=%s/file=%s", form, file)
+			b.P.Note = cell
+			b.P.Feat = map[string]string{"cell": cell}
+			out = append(out, b.P)
+		}
+	}
+	return out
+}
+
+// diamondCompositeFamily: a value of an UNNAMED composite type comes from a provider with cleanup
+// and error and is needed by both sides of a diamond (the outer provider and the provider of
+// its other argument): built once, released once, whatever the argument order (C02, C03, C04).
+func diamondCompositeFamily() []*Program {
+	var out []*Program
+	n := 0
+	for _, kind := range []string{"slice", "map", "func", "ptrptr", "chan", "array"} {
+		for _, compositeFirst := range []bool{false, true} {
+			n++
+			b := NewPB(fmt.Sprintf("dcf%02d", n), "app")
+			opt := b.Carrier(0, "Opt")
+			var k *Ty
+			switch kind {
+			case "slice":
+				k = SliceOf(opt)
+			case "map":
+				k = MapOf(Basic("string"), opt)
+			case "func":
+				k = FuncRet(opt)
+			case "ptrptr":
+				k = PtrTo(PtrTo(opt))
+			case "chan":
+				k = ChanOf("", opt)
+			case "array":
+				k = ArrayOf(2, opt)
+			case "struct":
+				k = StructOf(FieldT{Name: "O", Ty: opt})
+			}
+			no := b.Func(0, "NewOptions", k, true, true)
+			h, srv := b.Carrier(0, "Handler"), b.Carrier(0, "Server")
+			nh := b.Func(0, "NewHandler", PtrTo(h), true, false, k)
+			ps := []*Ty{PtrTo(h), k}
+			if compositeFirst {
+				ps = []*Ty{k, PtrTo(h)}
+			}
+			ns := b.Func(0, "NewServer", srv, true, true, ps...)
+			b.Inj("Init", srv, true, true, nil, refs(ns, nh, no)...)
+			cell := fmt.Sprintf("diamond-over-unnamed-composite/kind=%s/composite-first=%v", kind, compositeFirst)
+			b.P.Note = cell
+			b.P.Feat = map[string]string{"cell": cell}
+			out = append(out, b.P)
+		}
+	}
+	return out
+}
+
+// permutedSignatureFamily: acyclic programs whose types differ only in the ORDER of the parts of
+// an unnamed type (function parameters, results) - distinct types that hash-based shortcuts tend
+// to confuse: an adapter from func(A, B) R to func(B, A) R is no cycle (C07, C10).
+func permutedSignatureFamily() []*Program {
+	var out []*Program
+	for v := 0; v < 4; v++ {
+		b := NewPB(fmt.Sprintf("psf%d", v), "app")
+		r, app := b.Carrier(0, "R"), b.Carrier(0, "App")
+		a1, a2 := Basic("int"), Basic("string")
+		f1 := &Ty{K: "func", Params: []*Ty{a1, a2}, Elem: r}
+		f2 := &Ty{K: "func", Params: []*Ty{a2, a1}, Elem: r}
+		if v%2 == 1 {
+			f1 = &Ty{K: "func", Params: []*Ty{a1, a2, a1}, Elem: r}
+			f2 = &Ty{K: "func", Params: []*Ty{a1, a1, a2}, Elem: r}
+		}
+		less := b.Func(0, "NewLess", f1, false, false)
+		flip := b.Func(0, "NewFlipped", f2, false, false, f1)
+		na := b.Func(0, "NewApp", app, false, false, f2)
+		if v < 2 {
+			set := b.Set(0, "Adapters", ItemRef(flip.ID), ItemRef(less.ID))
+			b.Inj("Init", app, false, false, nil, ItemRef(na.ID), SetRef(set.ID))
+		} else {
+			b.Inj("Init", app, false, false, nil, refs(na, flip, less)...)
+		}
+		cell := fmt.Sprintf("adapter-between-permuted-signatures/variant=%d", v)
+		b.P.Note = cell
+		b.P.Feat = map[string]string{"cell": cell}
+		out = append(out, b.P)
+	}
+	return out
+}
+
+// caseTwinFieldsFamily: a struct with two fields of ONE type whose names differ only in case; the
+// field selected by name (wire.Struct / wire.FieldsOf, value and pointer parent) must be that
+// very field - the other one keeps / has its own value (C02, C12).
+func caseTwinFieldsFamily() []*Program {
+	var out []*Program
+	n := 0
+	for _, sel := range []string{"Addr", "addr"} {
+		for _, form := range []string{"fieldsof-ptr-parent", "fieldsof-value-parent", "struct"} {
+			n++
+			b := NewPB(fmt.Sprintf("ctf%02d", n), "app")
+			x, user := b.Carrier(0, "X"), b.Carrier(0, "User")
+			fields := []FieldT{idField, {Name: "addr", Ty: x}, {Name: "Addr", Ty: x}}
+			if sel == "addr" {
+				// the selected one is declared second either way
+				fields = []FieldT{idField, {Name: "Addr", Ty: x}, {Name: "addr", Ty: x}}
+			}
+			switch form {
+			case "struct":
+				s := b.NamedOf(0, "Config", StructOf(fields[1:]...), "none")
+				nx := b.Func(0, "NewX", x, false, false)
+				st := b.Struct(s, false, sel)
+				b.Inj("Init", s, false, false, nil, refs(nx, st)...)
+			default:
+				par := b.NamedOf(0, "Config", StructOf(fields...), "parent")
+				pt := par
+				if form == "fieldsof-ptr-parent" {
+					pt = PtrTo(par)
+				}
+				np := b.Func(0, "NewConfig", pt, false, false)
+				fl := b.Fields(pt, sel)
+				nu := b.Func(0, "NewUser", user, false, false, x)
+				b.Inj("Init", user, false, false, nil, refs(np, fl, nu)...)
+			}
+			cell := fmt.Sprintf("fields-differing-only-in-case/selected=%s/form=%s", sel, form)
 			b.P.Note = cell
 			b.P.Feat = map[string]string{"cell": cell}
 			out = append(out, b.P)
